@@ -297,7 +297,10 @@ func judgeFan(c FanCase, want []mv, r *runResult) *h.Fail {
 	case len(r.gerrs) > 0:
 		return h.Failf("C16|goroutine-error|fanout|"+normMsg(r.gerrs[0]), "a script goroutine failed with an error although every operation it does is defined\nsource:\n%s\nerror: %s", src, r.gerrs[0])
 	case r.stuck != "":
-		return h.Failf("C16|stuck|fanout", "the run did not finish (%s)\nsource:\n%s", r.stuck, src)
+		f := h.Failf("C16|stuck|fanout", "the run did not finish (%s)\nsource:\n%s", r.stuck, src)
+		f.NoShrink = true
+		hangSeen["fanout"] = true
+		return f
 	case r.err != "":
 		return h.Failf("C16|unexpected-error|fanout|"+normMsg(r.err), "the main script failed\nsource:\n%s\nerror: %s", src, r.err)
 	}
